@@ -427,3 +427,126 @@ pub fn run(out: &mut Out, seed: u64, thorough: bool, scn: Option<&str>) {
         rx.ev_drain(out);
     }
 }
+
+// --------------------------------------------------------------------- sysscn
+/// S->I: behaviours of the composed model MC_System (sender with several open trains, label policy,
+/// configuration calls, frame boundaries, an in-order channel that may lose or duplicate) replayed on the real
+/// encapsulator and decapsulator.  With a faithful channel the packets are fed as they are produced
+/// (lock-step: every obligation of C01 C02 C04 applies); with loss / duplication the channel is a queue and
+/// only the safety clauses apply.
+pub fn sysscn(out: &mut Out, path: &str, seed: u64) {
+    let text = std::fs::read_to_string(path).unwrap_or_default();
+    let mut rng = Rng::new(seed ^ 0x5157);
+    for line in text.lines() {
+        let mut it = line.split_whitespace();
+        let slots: usize = it.next().and_then(|s| s.parse().ok()).unwrap_or(2);
+        let lossy = line.contains(" lose") || line.contains(" twice");
+        let mgr = TableMgr { known: vec![] };
+        let mut rx = mk_rx(out, "sysscn", if lossy { "tlc_lossy" } else { "tlc" }, slots, 64, 3, mgr, !lossy);
+        let mut enc = Encapsulator::new(DefaultCrc {});
+        let mut open: Vec<(u8, Pdu, ContextFrag, usize)> = vec![]; // id, pdu, context, next packet (2 or 3)
+        let mut chan: std::collections::VecDeque<Vec<u8>> = Default::default();
+        for id in 0..4u8 {
+            rx.note_id(id);
+        }
+        let mut push = |out: &mut Out, rx: &mut Rx<DefaultCrc>, chan: &mut std::collections::VecDeque<Vec<u8>>, wire: Vec<u8>| {
+            if lossy {
+                chan.push_back(wire);
+            } else {
+                rx.ev_peek(out, &wire, true);
+                feed(out, rx, &wire, vec![]);
+            }
+        };
+        for tok in it {
+            let f: Vec<&str> = tok.split(':').collect();
+            match f[0] {
+                "sub" => {
+                    let label = match f.get(1).copied().unwrap_or("A") {
+                        "A" => LA6,
+                        "B" => LB3,
+                        "bc" => Label::Broadcast,
+                        _ => Label::ReUse,
+                    };
+                    let frag = f.get(2).copied() == Some("1");
+                    let id: u8 = f.get(3).and_then(|s| s.parse().ok()).unwrap_or(0);
+                    let pdu = Pdu::random(out, 30, &mut rng);
+                    // fragmented: the first fragment carries 10 PDU bytes (more when the label is replaced)
+                    let buf = if frag { 7 + label.len() + 10 } else { 200 };
+                    let t = ev_encap(out, &mut enc, &pdu, id, label, 0x0800, buf, None, None);
+                    match &t.res {
+                        Some(Ok(EncapStatus::CompletedPkt(_))) => push(out, &mut rx, &mut chan, t.wire.clone()),
+                        Some(Ok(EncapStatus::FragmentedPkt(_, c))) => {
+                            push(out, &mut rx, &mut chan, t.wire.clone());
+                            open.retain(|o| o.0 != id);
+                            open.push((id, pdu.clone(), *c, 2));
+                        }
+                        _ => {}
+                    }
+                }
+                "cont" => {
+                    let id: u8 = f.get(1).and_then(|s| s.parse().ok()).unwrap_or(0);
+                    if let Some(i) = open.iter().position(|o| o.0 == id) {
+                        let (_, pdu, ctx, next) = open[i].clone();
+                        let t = ev_encap_frag(out, &enc, &pdu, &ctx, if next == 2 { 13 } else { 4097 });
+                        match &t.res {
+                            Some(Ok(EncapStatus::CompletedPkt(_))) => {
+                                push(out, &mut rx, &mut chan, t.wire.clone());
+                                open.remove(i);
+                            }
+                            Some(Ok(EncapStatus::FragmentedPkt(_, c))) => {
+                                push(out, &mut rx, &mut chan, t.wire.clone());
+                                open[i].2 = *c;
+                                open[i].3 = 3;
+                            }
+                            _ => {}
+                        }
+                    }
+                }
+                "cfg" => match f.get(1).copied().unwrap_or("") {
+                    "disable" => ev_cfg(out, &mut enc, Cfg::Disable),
+                    "enable" => ev_cfg(out, &mut enc, Cfg::Enable),
+                    _ => ev_cfg(out, &mut enc, Cfg::EnableMax(f.get(2).and_then(|s| s.parse().ok()).unwrap_or(1))),
+                },
+                "frame" => {
+                    ev_cfg(out, &mut enc, Cfg::Reset);
+                    rx.ev_reset(out);
+                }
+                "recv" => {
+                    if let Some(w) = chan.pop_front() {
+                        feed(out, &mut rx, &w, vec![]);
+                    }
+                }
+                "lose" => {
+                    chan.pop_front();
+                }
+                "twice" => {
+                    if let Some(w) = chan.front().cloned() {
+                        feed(out, &mut rx, &w, vec![]);
+                    }
+                }
+                _ => {}
+            }
+        }
+        // what is still in flight arrives; open trains are finished
+        while let Some(w) = chan.pop_front() {
+            feed(out, &mut rx, &w, vec![]);
+        }
+        for (_, pdu, mut ctx, _) in open {
+            for _ in 0..3 {
+                let t = ev_encap_frag(out, &enc, &pdu, &ctx, 4097);
+                match &t.res {
+                    Some(Ok(EncapStatus::CompletedPkt(_))) => {
+                        feed(out, &mut rx, &t.wire, vec![]);
+                        break;
+                    }
+                    Some(Ok(EncapStatus::FragmentedPkt(_, c))) => {
+                        feed(out, &mut rx, &t.wire, vec![]);
+                        ctx = *c;
+                    }
+                    _ => break,
+                }
+            }
+        }
+        rx.ev_drain(out);
+    }
+}
